@@ -87,7 +87,11 @@ func (c05) Rule() string {
 		"at most 3 routes then), 120-440 paths each: two instantiations of every key, every proper prefix ending at a segment boundary (after a literal run, after a parameter value, " +
 		"with and without the following '/'), proper prefixes cut anywhere else (all or a sample), instantiations continued by more text or by the tail of another instantiation, " +
 		"head of one instantiation + tail of another at segment boundaries, and every byte string the real array accepts (breadth-first walk over fitting cells to the end-of-key cells). " +
-		"Enumerated fixed tables of the three families. Non-trivial: a table with a parameterised key and at least one lookup that is found with parameters or contains a reserved byte."
+		"Enumerated fixed tables of the three families. Sizes beyond 16 bits, lookups only (look cases, the table spelled once): generated case 0 = one 'big' table of ~1 200 records " +
+		"(services /<n>-<word> with 1-4 routes of 50-120 bytes each: P/:id/w1/w2/:k2/..., a route sharing /:id/w1/, a literal sibling of :id that spells the first route for a while, P/:id) grown until the " +
+		"real array uses more than 2^16 + 4 000 cells, ~250 paths: instantiations of routes whose parameter nodes lie beyond cell 2^16 (read off the real array) and of a few that lie below, the same " +
+		"with the literal sibling's word as the value (the walk follows the sibling and has to come back), prefixes, extensions, crossovers; generated case 20 = 'longpath': a key with a literal run of more " +
+		"than 2^16 bytes in front of a placeholder plus a literal sibling, and a parameter value of more than 2^16 bytes; thorough tier: one of each (table up to 2^17 cells) per 500 cases. Non-trivial: a table with a parameterised key and at least one lookup that is found with parameters or contains a reserved byte."
 }
 
 func (c05) Decode(raw json.RawMessage) (any, error) {
@@ -1600,16 +1604,17 @@ func (c05) Gen(r *rand.Rand, tier string, i int) any {
 	// three families are scheduled by the case index, so that every seed runs them: reserved bytes inside a
 	// literal segment of a key (i = 1 mod 10), reserved byte after a complete pattern on 10-40 routes (i = 6 mod 10),
 	// few long deeply nested routes (i = 3 mod 10; with the dumped arrays and repr_check for i = 3 mod 20)
-	// one table whose array outgrows 2^16 cells and one key / path longer than 2^16 bytes in every quick run (the
-	// first two generated cases, so that their long evaluation starts at once); a few bigger ones in the thorough tier
+	// one table whose array outgrows 2^16 cells and one key / path longer than 2^16 bytes in every quick run (early
+	// generated cases, so that their long evaluation starts at once, and a shard (20 cases) apart, so that they are
+	// evaluated in parallel); a few bigger ones in the thorough tier
 	switch {
 	case i == 0:
 		return c05GenBig(r, 1<<16+4000+r.Intn(3000), 100, 25)
-	case i == 2:
+	case i == 20:
 		return c05GenLongPath(r, tier)
 	case tier == "thorough" && i%500 == 250:
 		return c05GenBig(r, 1<<16+4000+r.Intn(60000), 260, 60)
-	case tier == "thorough" && i%500 == 252:
+	case tier == "thorough" && i%500 == 270:
 		return c05GenLongPath(r, tier)
 	}
 	switch i % 10 {
